@@ -88,6 +88,7 @@ type Options struct {
 	GodIsIdentity      bool
 	ZeroStakes         bool // genesis identities without stake
 	AllValidated       bool // genesis identities are all Newbie/Verified/Human
+	EpochNoKills       bool // synthetic epochs never take a validated status away (no stake burnt)
 	Epoch              EpochMode
 	MempoolCfg         *config.Mempool
 	Tweak              func(c *config.ConsensusConf)
